@@ -216,7 +216,7 @@ def run(model: Model, rep: Report) -> None:
     _lzw(model, rep)
     _simple_decoders(model, rep)
     # ---------------------------------------------------------------- R6
-    r6 = rep.rule("C03-R6", "ORDER", "payload delimitation: starts after the line holding `stream`, has /Length bytes, untouched outside fallback mode", 4)
+    r6 = rep.rule("C03-R6", "ORDER", "payload delimitation: starts after the line holding `stream`, has /Length bytes, untouched outside fallback mode", 6)
     dk = model.func("pdfminer.pdfparser.PDFParser.do_keyword")
     br = None
     for n in walk_no_nested(dk.node):
@@ -241,7 +241,33 @@ def run(model: Model, rep: Report) -> None:
     src = " ".join(unparse(s) for s in br.body)
     r6.check("objlen = int_value(dic['Length'])" in src and "dic = dict_value(dic)" in src, site(dk, br), dk.qualname, "the length is int_value(dic['Length']) (indirect lengths resolve)", why="Length read changed")
     r6.check("stream = PDFStream(dic, bytes(data), self.doc.decipher)" in src, site(dk, br), dk.qualname, "the stream object holds exactly the bytes read (and the document's decipher)", why="construction changed")
+    # every write to the payload after it was read is an append guarded by the fallback flag
+    from .tokenizer import _guard_tests, refill_before_read_rule
+
+    writes = []
+    for n in walk_no_nested(br):
+        tgt = None
+        if isinstance(n, ast.AugAssign):
+            tgt = n.target
+        elif isinstance(n, ast.Delete):
+            tgt = n.targets[0]
+        elif isinstance(n, ast.Assign) and isinstance(n.targets[0], ast.Subscript):
+            tgt = n.targets[0]
+        elif isinstance(n, ast.Call) and isinstance(n.func, ast.Attribute) and n.func.attr in ("extend", "append", "pop", "clear", "insert", "remove", "reverse", "__delitem__", "__setitem__", "strip", "rstrip"):
+            tgt = n.func.value
+        if tgt is None:
+            continue
+        root = tgt
+        while isinstance(root, (ast.Subscript, ast.Attribute)):
+            root = root.value
+        if isinstance(root, ast.Name) and root.id == "data":
+            writes.append(n)
+    badw = [w for w in writes if not (isinstance(w, ast.AugAssign) and isinstance(w.op, ast.Add) and any(pol and unparse(t) == "self.fallback" for t, pol in _guard_tests(dk, w)))]
+    r6.check(len(writes) >= 2 and not badw, site(dk, badw[0]) if badw else site(dk, br), dk.qualname, "the bytes read are changed only by appending scanned lines in fallback mode", why=f"`{unparse(badw[0])[:60]}` modifies the payload outside fallback mode: with a correct /Length the data read are exactly the stream's bytes (a payload may legitimately end in CR or LF)" if badw else "payload writes not found")
+    rebind = [n for n in walk_no_nested(br) if isinstance(n, ast.Assign) and any(isinstance(t, ast.Name) and t.id == "data" for t in n.targets)]
+    r6.check(len(rebind) == 1, site(dk, rebind[-1]) if rebind else site(dk, br), dk.qualname, "the payload variable is bound once (to the bytes read)", why=f"{len(rebind)} bindings of `data`")
     nl = model.func("pdfminer.psparser.PSBaseParser.nextline")
+    refill_before_read_rule(model, rep, "C03-R9", nl)
     nsrc = unparse(nl.node).replace(" ", "")
     r6.check("ifc==b'\\n':" in nsrc and "linebuf[-1:]==b'\\r'" in nsrc, site(nl), nl.qualname, "nextline consumes CR LF as one line end (the LF after a CR belongs to the line)", why="CR LF handling changed")
 
